@@ -149,7 +149,7 @@ def run(run):
     report(run, mism, events, owners)
     run.sample({k: v for k, v in events[0].items()})
     run.sample(events[min(5, len(events) - 1)])
-    if not mism and not run.only:
+    if not run.only and not [m for m in mism if m[1] <= 40]:        # the self-test slice (the first 40 events) was accepted
         def corrupt(ev2):
             i = next(i for i, e in enumerate(ev2) if e["ev"] == "Encode" and e["m"] != [0])
             ev2[i]["c"] = [ev2[i]["c"][0] ^ 1] + ev2[i]["c"][1:]
